@@ -137,4 +137,13 @@ META = {
     design_ref='DESIGN.md 6/C18',
     note='Replies are attributed via a caller id in command/result/metadata (the operation id is generated inside SendWithReplies).',
     technique='TLC model checking (liveness) of the listener + trace validation of concurrent request/reply histories'),
+ 'C15': dict(
+    text='Cqrs.tla defines Dispatch(kind, registry, flags, message): the ordered list of handler invocations and the settlement for command, event and event-group processors; '
+         'TLC checks over all registries of <=3 handlers x flags x messages (21 888 cases) that handlers are invoked only for their own type, groups run in registration order and '
+         'stop at the first error, unknown types follow AckOnUnknownEvent (commands: ack), handler errors mean Nack unless AckCommandHandlingErrors. Real processors on a real Router '
+         'fed by scripted subscribers, with JSON and Protobuf marshalers and three name generators, are traced (invocations with value equality and original-message context, '
+         'settlement) and validated against Dispatch; buses are checked in front of a capturing publisher (one publish, generated topic, name metadata, value round-trip)',
+    design_ref='DESIGN.md 6/C15',
+    note='Protobuf values use well-known types available offline (wrapperspb, durationpb). Malformed payloads are expected to be Nacked (see assumptions).',
+    technique='TLA+ dispatch function checked by TLC over the full small input space, used as oracle in trace validation of real processors'),
 }
